@@ -1384,13 +1384,26 @@ pub fn build(d: &mut Dna, cfg: &GenCfg) -> Built {
             }
         }
     }
-    let mut spec = TypeSpec { kind, name: type_name, gens, repr, traits: tattrs, split: d.byte(), variants, raw: vec![], extra_items: vec![], noise: vec![], disc_shift: false, via_macro: 0 };
+    let mut spec = TypeSpec { kind, name: type_name, gens, repr, traits: tattrs, split: d.byte(), variants, raw: vec![], extra_items: vec![], noise: vec![], disc_shift: false, via_macro: 0, type_expr_expect: None };
 
     // type-level Default expression: a full constructor of the default variant, all fields value 1
     if type_level_default_expr {
         let vi = default_variant.min(spec.variants.len().saturating_sub(1));
         let ix: Vec<usize> = spec.variants[vi].fields.iter().map(|f| if f.ty.vals.len() > 1 { 1 } else { 0 }).collect();
-        let e = spec.value_expr(vi, &ix);
+        let mut e = spec.value_expr(vi, &ix);
+        // a bare literal as the type-level expression reaches the type through the user's own `From` impls; a second
+        // impl for another literal type produces a different value, so that a re-interpreted literal is observable
+        if spec.kind != Kind::Union && d.chance(25) {
+            let (lit, lit_ty, other_ty) = *d.choose(&[("\"0\"", "&'static str", "i32"), ("7", "i32", "&'static str"), ("'c'", "char", "i32"), ("true", "bool", "i32"), ("\"1.5\"", "&'static str", "f64")]);
+            let ix2: Vec<usize> = spec.variants[vi].fields.iter().map(|f| if f.ty.vals.len() > 2 { 2 } else { 0 }).collect();
+            let other = spec.value_expr(vi, &ix2);
+            let (ig, st, wc) = (spec.gens.impl_decl(), spec.self_ty(), spec.gens.where_clause());
+            spec.extra_items.push(format!("impl{ig} ::core::convert::From<{lit_ty}> for {st}{wc} {{ fn from(_v: {lit_ty}) -> Self {{ {e} }} }}"));
+            spec.extra_items.push(format!("impl{ig} ::core::convert::From<{other_ty}> for {st}{wc} {{ fn from(_v: {other_ty}) -> Self {{ {other} }} }}"));
+            spec.type_expr_expect = Some(e.clone());
+            e = lit.to_string();
+            classes.push("default_type_expression_is_a_literal");
+        }
         for a in spec.traits.iter_mut() {
             if a.tr == Tr::Default {
                 for (p, _) in a.params.iter_mut() {
@@ -1517,7 +1530,7 @@ pub fn build(d: &mut Dna, cfg: &GenCfg) -> Built {
             }
             classes.push("extra_where_predicates");
         }
-        if cfg.consts && !want_unsized && d.chance(7) {
+        if cfg.consts && !want_unsized && spec.type_expr_expect.is_none() && d.chance(7) {
             let taken: Vec<String> = spec.gens.types.iter().map(|t| t.name.clone()).chain(spec.gens.consts.iter().map(|c| c.name.clone())).collect();
             let name = const_names.iter().find(|n| !taken.contains(n)).cloned().unwrap_or_else(|| "K9".to_string());
             if !taken.contains(&name) && name != spec.name {
